@@ -24,7 +24,7 @@ for t in alpha_rename invert_conditions demorgan guard_clauses hoist_tests filte
   echo "   $t: ${bad:-all silent}"
   rm -rf $S/wt
 done
-for t in iters args ifexp unifexp assignif withtmp flip chain kwargs tidy; do
+for t in iters args ifexp unifexp assignif withtmp flip chain kwargs tidy alias aug; do
   tools/more_rewrites.py $S/wt $t > /dev/null 2>&1
   bad=""
   for p in $P; do DAWGIE_SRC=$S/wt/Python/dawgie VERIF_NO_EVIDENCE=1 ./check C$p quick > $S/wt.out 2>&1; rc=$?; [ $rc -ne 0 ] && bad="$bad C$p($rc)"; done
